@@ -127,7 +127,18 @@ def _run_check(engine, tier, seed, t0):
         print(line)
 
     herr = [(c, r) for c, r in pairs if r['verdict'] == 'harness_error']
-    cov = engine.coverage(pairs, tier)
+    try:
+        cov = engine.coverage(pairs, tier)
+    except Exception as e:
+        # reporting must not turn a clean run into an error: fall back to what can always be counted
+        import traceback
+        traceback.print_exc()
+        digests = {(r.get('stats') or {}).get('digest') for _, r in pairs if r['verdict'] != 'harness_error'}
+        cov = {'evaluations': sum(1 for _, r in pairs if r['verdict'] != 'harness_error'),
+               'distinct_nontrivial': len(digests - {None}),
+               'rule': 'fallback (the engine-specific coverage summary raised %s): one evaluation = one executed case; '
+                       'distinct = distinct event-log digests' % type(e).__name__,
+               'samples': [{'id': c.get('id')} for c, _ in pairs[:3]]}
     cov['verdicts'] = dict(verdicts)
     cov['known_findings_hit'] = dict(known_hits)
     wall = time.time() - t0
